@@ -22,8 +22,10 @@ Definition tpow (G : group) (protect : bool) (base e : Z) : res Z :=
     of_outcome (if protect then fspowm tab base e (gp G) else fpowm tab base e (gp G))).
 
 (* BarnettSmartVTMF_dlog::IndexElement, :270-275 *)
+Definition index_element_tab (G : group) (tab : list Z) (i : Z) : res Z :=
+  of_outcome (fpowm_ui tab (gg G) i (gp G)).
 Definition index_element (G : group) (i : Z) : res Z :=
-  rbind (table_of G (gg G)) (fun tab => of_outcome (fpowm_ui tab (gg G) i (gp G))).
+  rbind (table_of G (gg G)) (fun tab => index_element_tab G tab i).
 
 (* KeyGenerationProtocol_GenerateKey :277-291: h_i = g^x_i (fspowm) *)
 Definition key_share (G : group) (x : Z) : res Z := tpow G true (gg G) x.
@@ -58,14 +60,15 @@ Definition dec_finalize (G : group) (d c2 : Z) : res Z :=
 
 (* TMCG_TypeOfCard(VTMF_Card) SchindelhauerTMCG.cc:1079-1099: first t < 2^w with g^t = m, else 2^w.
    The lazily filled message_space only caches index_element. *)
-Fixpoint find_type (G : group) (m : Z) (n : nat) (t : Z) (sentinel : Z) : res Z :=
+Fixpoint find_type (G : group) (tab : list Z) (m : Z) (n : nat) (t : Z) (sentinel : Z) : res Z :=
   match n with
   | O => inl sentinel
-  | S n' => rbind (index_element G t) (fun e => if m =? e then inl t else find_type G m n' (t + 1) sentinel)
+  | S n' => rbind (index_element_tab G tab t) (fun e => if m =? e then inl t else find_type G tab m n' (t + 1) sentinel)
   end.
 
+(* (the g-table is the member fpowm_table_g of the instance: built once) *)
 Definition type_of_message (G : group) (w : nat) (m : Z) : res Z :=
-  find_type G m (Nat.pow 2 w) 0 (2 ^ Z.of_nat w).
+  rbind (table_of G (gg G)) (fun tab => find_type G tab m (Nat.pow 2 w) 0 (2 ^ Z.of_nat w)).
 
 (* TMCG_CreateOpenCard(VTMF_Card) :728-741 *)
 Definition create_open_card (G : group) (T : Z) : res (Z * Z) :=
